@@ -25,15 +25,10 @@ REP_IMPL = r"impl\s+ISocket\s+for\s+RepSocket\b"
 COMMON = """
 // ---- shared stand-ins (abstract: nothing assumed but the signatures)
 pub struct TurnGuard { pub x: u8 }
-// tokio::sync::Mutex<()> used as a turn lock; `held` = held by THIS call (ghost)
+// tokio::sync::Mutex<()> used as a turn lock; `held` = held by THIS call (ghost).  Acquisition goes through the socket-level
+// stand-in verif_turn_lock (rewrite of exactly `let _name = self.<turn>.lock().await;`, a named binding that lives to the end
+// of the function; `let _ = ..` would drop the guard at once and is deliberately not matched).
 pub struct TurnLock { pub held: Ghost<bool> }
-impl TurnLock {
-  #[verifier::external_body]
-  pub async fn lock(&mut self) -> (g: TurnGuard)
-    requires !old(self).held@,
-    ensures final(self).held@,
-  { unimplemented!() }
-}
 #[verifier::external_body]
 pub struct MailboxRef { x: u8 }
 impl MailboxRef { #[verifier::external_body] pub fn is_closed(&self) -> bool { unimplemented!() } }
@@ -78,9 +73,11 @@ pub struct ReqSocket {
   pub send_turn: TurnLock,        // tokio::sync::Mutex<()>
   pub log: Ghost<Seq<(ReqState, ReqState)>>,   // ghost: (value found, value written) of every write to `state`, in order
   pub seen: Ghost<Seq<ReqState>>,              // ghost: value found at every acquisition of the state mutex, in order
+  pub under: Ghost<bool>,                      // ghost: the value in `state` was observed while this call already held the send turn
 }
-// what other tasks may do to the state between two of my critical sections: while I hold the send turn nobody leaves ReadyToSend
-pub open spec fn req_rely(before: ReqState, after: ReqState, held: bool) -> bool { held && before is ReadyToSend ==> after is ReadyToSend }
+// what other tasks may do to the state between two of my critical sections: nobody leaves ReadyToSend while I hold the send turn --
+// usable only for a value I observed when I ALREADY held the turn (`under`); anything seen before taking the turn is stale
+pub open spec fn req_rely(before: ReqState, after: ReqState, held_since_before: bool) -> bool { held_since_before && before is ReadyToSend ==> after is ReadyToSend }
 // what every write of every function must honour for that to be true
 pub open spec fn req_guarantee(found: ReqState, written: ReqState, held: bool) -> bool { found is ReadyToSend && !(written is ReadyToSend) ==> held }
 impl ReqSocket {
@@ -91,12 +88,21 @@ impl ReqSocket {
   #[verifier::external_body]
   pub fn verif_state_acquire(&mut self)
     ensures final(self).frame(old(self)), final(self).log == old(self).log,
-      req_rely(old(self).state, final(self).state, old(self).send_turn.held@),
+      req_rely(old(self).state, final(self).state, old(self).send_turn.held@ && old(self).under@),
       final(self).seen@ == old(self).seen@.push(final(self).state),
+      final(self).under@ == old(self).send_turn.held@,
+  { unimplemented!() }
+  // taking the turn is an await: other calls run meanwhile, whatever was observed before is stale
+  #[verifier::external_body]
+  pub async fn verif_turn_lock(&mut self) -> (g: TurnGuard)
+    requires !old(self).send_turn.held@,
+    ensures final(self).send_turn.held@, !final(self).under@, final(self).state == old(self).state, final(self).log == old(self).log, final(self).seen == old(self).seen,
+      final(self).core == old(self).core, final(self).load_balancer == old(self).load_balancer, final(self).ingress_engine == old(self).ingress_engine,
+      final(self).reply_available_notifier == old(self).reply_available_notifier,
   { unimplemented!() }
   pub fn verif_state_write(&mut self, v: ReqState)
     requires req_guarantee(old(self).state, v, old(self).send_turn.held@),
-    ensures final(self).frame(old(self)), final(self).seen == old(self).seen, final(self).state == v,
+    ensures final(self).frame(old(self)), final(self).seen == old(self).seen, final(self).state == v, final(self).under == old(self).under,
       final(self).log@ == old(self).log@.push((old(self).state, v)),
   {
     proof { self.log = Ghost(self.log@.push((self.state, v))); }
@@ -122,21 +128,29 @@ pub struct RepSocket {
   pub recv_turn: TurnLock,        // tokio::sync::Mutex<()>
   pub log: Ghost<Seq<(RepState, RepState)>>,
   pub seen: Ghost<Seq<RepState>>,
+  pub under: Ghost<bool>,         // ghost: the value in `state` was observed while this call already held the recv turn
 }
 // while I hold the recv turn nobody leaves ReadyToReceive; leaving ReadyToReceive requires holding the recv turn
-pub open spec fn rep_rely(before: RepState, after: RepState, held: bool) -> bool { held && before is ReadyToReceive ==> after is ReadyToReceive }
+pub open spec fn rep_rely(before: RepState, after: RepState, held_since_before: bool) -> bool { held_since_before && before is ReadyToReceive ==> after is ReadyToReceive }
 pub open spec fn rep_guarantee(found: RepState, written: RepState, held: bool) -> bool { found is ReadyToReceive && !(written is ReadyToReceive) ==> held }
 impl RepSocket {
   pub open spec fn frame(&self, o: &RepSocket) -> bool { self.core == o.core && self.ingress_engine == o.ingress_engine && self.recv_turn == o.recv_turn }
   #[verifier::external_body]
   pub fn verif_state_acquire(&mut self)
     ensures final(self).frame(old(self)), final(self).log == old(self).log,
-      rep_rely(old(self).state, final(self).state, old(self).recv_turn.held@),
+      rep_rely(old(self).state, final(self).state, old(self).recv_turn.held@ && old(self).under@),
       final(self).seen@ == old(self).seen@.push(final(self).state),
+      final(self).under@ == old(self).recv_turn.held@,
+  { unimplemented!() }
+  #[verifier::external_body]
+  pub async fn verif_turn_lock(&mut self) -> (g: TurnGuard)
+    requires !old(self).recv_turn.held@,
+    ensures final(self).recv_turn.held@, !final(self).under@, final(self).state == old(self).state, final(self).log == old(self).log, final(self).seen == old(self).seen,
+      final(self).core == old(self).core, final(self).ingress_engine == old(self).ingress_engine,
   { unimplemented!() }
   pub fn verif_state_write(&mut self, v: RepState)
     requires rep_guarantee(old(self).state, v, old(self).recv_turn.held@),
-    ensures final(self).frame(old(self)), final(self).seen == old(self).seen, final(self).state == v,
+    ensures final(self).frame(old(self)), final(self).seen == old(self).seen, final(self).state == v, final(self).under == old(self).under,
       final(self).log@ == old(self).log@.push((old(self).state, v)),
   {
     proof { self.log = Ghost(self.log@.push((self.state, v))); }
@@ -145,7 +159,7 @@ impl RepSocket {
   // R6h: std::mem::replace(&mut *guard, v)
   pub fn verif_state_replace(&mut self, v: RepState) -> (r: RepState)
     requires rep_guarantee(old(self).state, v, old(self).recv_turn.held@),
-    ensures final(self).frame(old(self)), final(self).seen == old(self).seen, final(self).state == v, r == old(self).state,
+    ensures final(self).frame(old(self)), final(self).seen == old(self).seen, final(self).state == v, r == old(self).state, final(self).under == old(self).under,
       final(self).log@ == old(self).log@.push((old(self).state, v)),
   {
     proof { self.log = Ghost(self.log@.push((self.state, v))); }
@@ -175,9 +189,11 @@ def guard_rules(names):
     rules.append(("R6h", re.compile(r"\*%s\b" % g), "self.state", "*"))
   return rules
 
-REP_RULES = [INVALID,
+REP_RULES = [INVALID, ("R6h", re.compile(r"let (_[a-z][a-z_0-9]*) = self\.recv_turn\.lock\(\)\.await;"), r"let \1 = self.verif_turn_lock().await;", "*"),
              ("R8", "self.core_state_read().options.rcvtimeo", "self.core.verif_rcvtimeo()", 1),
              ("R6h", re.compile(r"\*self\.state\.lock\(\)\s*=\s*([^;]*);"), r"{ self.verif_state_acquire(); self.verif_state_write(\1); }", 1)] + guard_rules(["guard"])
+def turn_rule(field):
+  return ("R6h", re.compile(r"let (_[a-z][a-z_0-9]*) = self\.%s\.lock\(\)\.await;" % field), r"let \1 = self.verif_turn_lock().await;", "*")
 SELF_MUT = [("&self", "&mut self")]
 # C09: a future can only be dropped where it returned Pending, i.e. at an await.  If no write to the protocol state has
 # happened before any await of a call, dropping the call at any point leaves the protocol state exactly as it found it.
@@ -204,7 +220,7 @@ parts = [
        ("C10:successful_send_is_one_atomic_transition",
         "r is Ok ==> req_one_write(old(self), final(self)) && final(self).log@.last().0 is ReadyToSend && final(self).log@.last().1 is ExpectingReply"),
      ],
-     extra=[INVALID,
+     extra=[INVALID, turn_rule("send_turn"),
             ("R8", "self.core.core_state.read().options.sndtimeo", "self.core.verif_sndtimeo()", 1),
             ("R8", re.compile(r"tokio_timeout\(duration, self\.load_balancer\.wait_for_connection\(\)\)\.await"), "self.load_balancer.verif_timed_wait(duration).await", 1),
             ] + guard_rules(["current_state_guard"]),
